@@ -23,7 +23,7 @@ INTERLEAVING_MEASURE = 'distinct (hint, object, rewrite kind) triples; draws enu
 COMPONENTS = c03.COMPONENTS
 ASSUMPTIONS = ['hand-rewriting replaces the class leaves of the hint DSL; Literal members, validators and TypeVar bounds are not rewritten '
                '(hint_overrides keys are compared by hint equality, so only whole child hints equal to a key are replaced)']
-PROBES = ['tower_cases', 'override_cases', 'vtype_cases', 'rewrite_below_top', 'verdict_depends_on_draw', 'rejections_both_sides']
+PROBES = ['tower_cases', 'override_cases', 'vtype_cases', 'combined_option_cases', 'rewrite_below_top', 'verdict_depends_on_draw', 'rejections_both_sides']
 
 TOWER = {'float': {'k': 'pipe', 'a': [{'k': 'cls', 'n': 'float'}, {'k': 'cls', 'n': 'int'}]},
          'complex': {'k': 'pipe', 'a': [{'k': 'cls', 'n': 'complex'}, {'k': 'cls', 'n': 'float'}, {'k': 'cls', 'n': 'int'}]}}
@@ -119,9 +119,50 @@ def _bias_hint(rng, names, no_tv=False):
     return leaf
 
 
+def _gen_combo(rng):
+    """Several rewriting options in one configuration: the numeric tower together with hint_overrides that spell out one or
+    both of the tower's own replacements and / or override an unrelated class; or two unrelated overrides at once."""
+    tower = rng.random() < 0.8
+    pairs = []
+    mapping = {}
+    if tower:
+        mapping.update(TOWER)
+        for n in {'none': [], 'float': ['float'], 'complex': ['complex'], 'both': ['float', 'complex']}[
+                rng.choice(['none', 'float', 'float', 'complex', 'complex', 'both'])]:
+            pairs.append([{'k': 'cls', 'n': n}, TOWER[n]])
+    plain = [ov for ov in OVERRIDES if ov[0]['n'] in ('str', 'A', 'bytes', 'C') and ov[1]['k'] in ('cls', 'union')]
+    extra = rng.sample(plain, rng.choice([0, 1, 1]) if tower else 2)
+    keys = set()
+    for ov in extra:
+        if ov[0]['n'] in keys or any(ov[0]['n'] in repr(o2[1]) or o2[0]['n'] in repr(ov[1]) for o2 in extra if o2 is not ov):
+            continue        # (one replacement per class; no override whose replacement mentions another overridden class)
+        keys.add(ov[0]['n'])
+        pairs.append(ov)
+        mapping[ov[0]['n']] = ov[1]
+    if not mapping:
+        tower = True
+        mapping.update(TOWER)
+    rng.shuffle(pairs)
+    names = sorted(mapping)
+    h = None
+    for _ in range(30):
+        # a hint that mentions at least two of the rewritten classes wherever possible
+        a, b = _bias_hint(rng, names, no_tv=bool(keys)), _bias_hint(rng, names, no_tv=bool(keys))
+        h = rng.choice([{'k': 'tuple', 'a': [a, b]}, {'k': 'union', 'a': [a, b]}, {'k': 'map', 'o': 'dict', 'a': [{'k': 'cls', 'n': 'str'}, {'k': 'tuple', 'a': [a, b]}]}, a])
+        if any(_under_type(h, n) for n in names):
+            continue
+        break
+    return h, mapping, pairs, tower
+
+
 def generate(rng, run, tier):
-    kind = rng.choice(['tower', 'tower', 'override', 'override', 'vtype'])
-    if kind == 'tower':
+    kind = rng.choice(['tower', 'tower', 'override', 'override', 'vtype', 'combo'])
+    combo = None
+    if kind == 'combo':
+        h, mapping, pairs, tower = _gen_combo(rng)
+        combo = {'tower': tower, 'pairs': pairs, 'mapping': mapping}
+        ov = None
+    elif kind == 'tower':
         h = _bias_hint(rng, ['float', 'complex'])
         mapping = TOWER
         ov = None
@@ -173,7 +214,7 @@ def generate(rng, run, tier):
     if kind == 'vtype' or rng.random() < 0.2:
         vt = rng.choice([{'vt': 'exc'}, {'vt': 'warn'}, {'vdoor': 'valueerror'}, {'vparam': 'warn'}, {'vreturn': 'exc'},
                          {'vt': 'valueerror', 'vparam': 'warn'}])
-    return {'kind': kind, 'h': h, 'h2': h2, 'x': o, 'override': ov, 'base': base, 'vt': vt,
+    return {'kind': kind, 'h': h, 'h2': h2, 'x': o, 'override': ov, 'base': base, 'vt': vt, 'combo': combo,
             'draws': c03.draws_for(rng, o, h2)}
 
 
@@ -182,9 +223,11 @@ def execute(case):
     boot.SAMPLER.reset()
     probes = {k: 0 for k in PROBES}
     kind = case['kind']
-    probes[{'tower': 'tower_cases', 'override': 'override_cases', 'vtype': 'vtype_cases'}[kind]] = 1
+    probes[{'tower': 'tower_cases', 'override': 'override_cases', 'vtype': 'vtype_cases', 'combo': 'combined_option_cases'}[kind]] = 1
     hits = []
-    if kind == 'tower':
+    if kind == 'combo':
+        rewrite(case['h'], case['combo']['mapping'], 0, hits)
+    elif kind == 'tower':
         rewrite(case['h'], TOWER, 0, hits)
     elif kind == 'override':
         rewrite(case['h'], {case['override'][0]['n']: case['override'][1]}, 0, hits)
@@ -194,7 +237,12 @@ def execute(case):
     hint2 = H.build_hint(case['h2'])
     conf1 = dict(case['base'])
     conf2 = dict(case['base'])
-    if kind == 'tower':
+    if kind == 'combo':
+        if case['combo']['tower']:
+            conf1['tower'] = True
+        if case['combo']['pairs']:
+            conf1['overrides'] = case['combo']['pairs']
+    elif kind == 'tower':
         conf1['tower'] = True
     elif kind == 'override':
         conf1['overrides'] = [case['override']]
@@ -245,7 +293,7 @@ def shrink(case, violation):
             yield dict(case, draws=[d])
     if case.get('vt'):
         yield dict(case, vt=None)
-    mapping = TOWER if case['kind'] == 'tower' else ({case['override'][0]['n']: case['override'][1]} if case['kind'] == 'override' else {})
+    mapping = case['combo']['mapping'] if case['kind'] == 'combo' else TOWER if case['kind'] == 'tower' else ({case['override'][0]['n']: case['override'][1]} if case['kind'] == 'override' else {})
     n = 0
     for h in c03.shrink_hint(case['h']):
         n += 1
@@ -277,4 +325,4 @@ SIGNATURES = {'counter_implicit_int_overridden': _sig_counter_int}
 
 def describe(case):
     return {'kind': case['kind'], 'hint': case['h'], 'rewritten': case['h2'], 'object': case['x'], 'override': case.get('override'),
-            'vt': case.get('vt'), 'draws': case['draws']}
+            'combo': case.get('combo'), 'vt': case.get('vt'), 'draws': case['draws']}
